@@ -419,9 +419,35 @@ def _ceval(body, e, byte, F, depth=0, env=None, binds=None):
             # a private helper (`inline_len_from_last_byte(b)`): its single result, on these arguments
             hb = body.facts.bodies[key]
             ds = hb.defs.get(0, [])
+            henv = {i + 1: v for i, v in enumerate(vs)}
             if len(ds) == 1:
                 r = ("call", ds[0][0]) if ds[0][1] == "term" else hb.origin_rvalue(ds[0][2])
-                return _ceval(hb, r, byte, F, depth + 1, {i + 1: v for i, v in enumerate(vs)})
+                return _ceval(hb, r, byte, F, depth + 1, henv)
+            if len(ds) > 1 and depth < 20:
+                # `if len < MAX { len } else { MAX }`: follow the branches these arguments take
+                bb, seen_, last = 0, set(), None
+                for _ in range(60):
+                    if bb in seen_:
+                        return None
+                    seen_.add(bb)
+                    for (dbb, si, x) in ds:
+                        if dbb == bb and si != "term":
+                            last = hb.origin_rvalue(x) if x["k"] != "use" or "c" not in x["a"] else ("const", x["a"]["c"].get("ty"), x["a"]["c"].get("scalar"), None)
+                    tt = hb.term(bb)
+                    if tt["k"] == "return":
+                        break
+                    if tt["k"] == "switch":
+                        dv = _ceval(hb, hb.origin_operand(tt["discr"]), byte, F, depth + 1, henv)
+                        if not isinstance(dv, int) or isinstance(dv, _U):
+                            return None
+                        bb = next((tb for av, tb in tt["arms"] if av == int(dv)), tt["otherwise"])
+                    elif tt["k"] in ("goto", "call", "drop", "assert") and tt.get("target") is not None:
+                        if tt["k"] == "call" and not tt["dest"]["p"] and tt["dest"]["l"] == 0:
+                            last = ("call", bb)
+                        bb = tt["target"]
+                    else:
+                        return None
+                return _ceval(hb, last, byte, F, depth + 1, henv) if last is not None else None
         if any(v is None for v in vs):
             return None
         if len(vs) == 1 and isinstance(vs[0], int) and not isinstance(vs[0], bool):
